@@ -1,5 +1,6 @@
 import Dicom.Proofs.Provider2
 import Dicom.Proofs.Trace
+import Dicom.Proofs.Duplex
 /-! # C05 — the provider run as a whole behaves as the PS3.8 protocol machine (loop model)
 
 `Prov.iter` is one pass of `DULServiceProvider.run`: socket reader, framing (abstracted to complete
@@ -138,5 +139,24 @@ example : (∀ t ∈ [({} : Tick), {net := .data [.rq]}, {enq := [.ac]}, {net :=
   intro t ht
   simp only [List.mem_cons, List.not_mem_nil, or_false] at ht
   rcases ht with rfl | rfl | rfl | rfl | rfl | rfl | rfl | rfl | rfl <;> exact ⟨rfl, by simp⟩
+
+/-- **full duplex**: whatever arrives from the network and whatever the user issues before the same pass, one poll
+raises at most one event - the loop's single `primitive` slot belongs to it - and takes at most the head of the user's
+queue -/
+theorem one_event_per_poll (p : P) :
+    ((poll p).evq = p.evq ∨ ∃ e, (poll p).evq = p.evq ++ [e]) ∧
+    ((poll p).fromUser = p.fromUser ∨ ∃ x, p.fromUser = x :: (poll p).fromUser) :=
+  Dicom.Prov.poll_one_event p
+
+/-- the user's primitives are consumed in the order they were issued and none is skipped, whatever the network does
+meanwhile: after a pass the queue is the old queue plus what was issued, minus at most its head -/
+theorem user_primitives_in_order (p : P) (t : Tick) (hc : p.crashed = false) :
+    (iter p t).1.fromUser = p.fromUser ++ t.enq ∨ ∃ x, p.fromUser ++ t.enq = x :: (iter p t).1.fromUser :=
+  Dicom.Prov.user_queue_fifo p t hc
+
+-- non-vacuity: a P-DATA arrives and the user issues a message and a release request before the same pass, in data
+-- transfer: the network is served first, both primitives stay queued, in order
+example : (iter { st := .s6, sock := true } { net := .data [.pdataDone], enq := [.msg 0, .rlrq] }).1.fromUser = [.msg 0, .rlrq] ∧
+    (iter { st := .s6, sock := true } { net := .data [.pdataDone], enq := [.msg 0, .rlrq] }).2 = [.indDimse] := by decide
 
 end Dicom.C05
